@@ -12,9 +12,40 @@ import (
 
 type (
 	Once = sync.Once
-	Pool = sync.Pool
 	Map  = sync.Map
 )
+
+// Pool is a deterministic replacement for sync.Pool: a LIFO free list that never drops an item (the real
+// pool drops items at GC time and, under the race detector, at random: uncontrolled nondeterminism).
+type Pool struct {
+	New   func() any
+	mu    sync.Mutex
+	items []any
+}
+
+func (p *Pool) Get() any {
+	p.mu.Lock()
+	if n := len(p.items); n > 0 {
+		x := p.items[n-1]
+		p.items = p.items[:n-1]
+		p.mu.Unlock()
+		return x
+	}
+	p.mu.Unlock()
+	if p.New != nil {
+		return p.New()
+	}
+	return nil
+}
+
+func (p *Pool) Put(x any) {
+	if x == nil {
+		return
+	}
+	p.mu.Lock()
+	p.items = append(p.items, x)
+	p.mu.Unlock()
+}
 
 // Locker is sync.Locker.
 type Locker = sync.Locker
